@@ -525,7 +525,7 @@ static int mc_finish(void) {
             char m[MC_MSG];
             if (mc_confirm(&c, m, sizeof m) && nall < (int)(sizeof all / sizeof *all)) {
                 all[nall].c = c;
-                snprintf(all[nall].msg, MC_MSG, "regression case %s: %s", de->d_name, m);
+                snprintf(all[nall].msg, MC_MSG, "regression case %.100s: %.400s", de->d_name, m);
                 nall++;
                 nviol_total++;
             }
